@@ -348,8 +348,8 @@ fn e1_plan(prop: P, tier: &Tier) -> Vec<PlanItem> {
             v
         }
         P::C09 => vec![
-            item(Box::new(Grid::f1()), named(vec![("sync", sync_cfg())]), 1),
-            item(f3_filtered(2, &|d| !matches!(d, Deco::Hint(..))), named(vec![("sync", sync_cfg())]), 1),
+            item(Box::new(Grid::f1()), named(vec![("sync", sync_cfg()), ("sync hints=Some(empty list)", hint_cfg(Hint::Some(vec![])))]), 1),
+            item(f3_filtered(2, &|d| !matches!(d, Deco::Hint(..))), named(vec![("sync", sync_cfg()), ("sync hints=Some(empty list)", hint_cfg(Hint::Some(vec![])))]), 1),
             item(f3_filtered(if q { 1 } else { 3 }, &|d| !matches!(d, Deco::Hint(..))), named(vec![("sync", sync_cfg())]), 1),
             item(f4(tier), named(vec![("sync", sync_cfg())]), if q { 4 } else { 1 }),
         ],
